@@ -40,7 +40,11 @@ class Ctx:
         return self.prog.module(q)
 
     def cfg(self, fi: FuncInfo) -> CFG:
-        return build_cfg(fi.node)
+        g = build_cfg(fi.node)
+        if g.scope is None:
+            from .pattern import scope_of
+            g.scope = scope_of(fi)
+        return g
 
     def const(self, modname: str, name: str):
         try:
